@@ -29,6 +29,12 @@ def check_units(F, R, rule, files, result_dim, loopfn, skip=()):
         pd = {p["name"]: Fraction(0) for p in f["params"] if p["t"] in ("double", "int")}
         pd.update(result_dim.get(("params", short), {}))
         want = result_dim.get(short, Fraction(0))
+        # a file-local helper without declared parameter dimensions (e.g. the shared body of two sibling functions) is typed
+        # where it is used: its callers are folded with the helper inlined and the actual arguments' dimensions
+        local_helper = "(anonymous namespace)" in f["name"] and ("params", short) not in result_dim and short not in result_dim \
+            and any(p["t"] in ("double", "int") for p in f["params"]) and F.callers.get(k)
+        if local_helper:
+            continue
         try:
             d = units(v, pd)
         except UnitFail as ex:
